@@ -93,7 +93,7 @@ def inst_apply(S):
         def mk(mcc=mcc, pcc=pcc):
             return [IP.X_of((mr, mcc), "X"), IP.X_of((mr * pr, mcc * pcc), "J")], {}, [sp.Ge(mr * pr, 2), sp.Ge(mcc * pcc, 2)]
 
-        out.append(("apply_channel", "apply_channel(X, Choi matrix), %s operator spaces, all dimensions" % ("rectangular" if rect else "square"), fn, {"vec": IL.summary_vec, "swap": IL.summary_swap}, mk, (lambda a, k, pcc=pcc: IL.spec_apply_choi(a[0], a[1], pr, pcc)), (lambda a, k, pcc=pcc: [[pr], [pcc]])))
+        out.append(("apply_channel", "apply_channel(X, Choi matrix), %s operator spaces, all dimensions for which the Choi matrix has at least 2 rows and 2 columns (a one-column Choi matrix is mis-read: F-04e)" % ("rectangular" if rect else "square"), fn, {"vec": IL.summary_vec, "swap": IL.summary_swap}, mk, (lambda a, k, pcc=pcc: IL.spec_apply_choi(a[0], a[1], pr, pcc)), (lambda a, k, pcc=pcc: [[pr], [pcc]])))
     for form, nk in KFORMS:
         sq = form != "pairs"
         mcc, pcc = (mr, pr) if sq else (mc, pc)
@@ -168,7 +168,7 @@ def inst_partial(S):
             def axes(a, k, R=R, C=C, mcc=mcc, pcc=pcc):
                 return [[pr if x is mr else x for x in R], [(pcc if x is mcc else x) for x in C]]
 
-            lab = "partial_channel(rho, %s, sys=%d of %d, dim %s), all dimensions" % ("Choi matrix" if form == "choi" else "Kraus %s x%d" % (form, nk), sysn, n, "two-row" if rect else "list")
+            lab = "partial_channel(rho, %s, sys=%d of %d, dim %s), all dimensions%s" % ("Choi matrix" if form == "choi" else "Kraus %s x%d" % (form, nk), sysn, n, "two-row" if rect else "list", " for which the Choi matrix has at least 2 rows and 2 columns" if form == "choi" else "")
             out.append(("partial_channel", lab, fns, {"apply_channel": IL.summary_apply_channel, "permute_systems": IL.summary_permute_systems}, mk, spec, axes, [r1, mr, r2, c1, mc, c2, pr, pc]))
     return out
 
